@@ -94,6 +94,9 @@ func drawEpoch(t *core.Tape) time.Time {
 	case 3:
 		return time.Unix(int64(t.Intn(100)), int64(t.Intn(1_000_000_000))).UTC()
 	}
+	if t.Bool() {
+		return time.Unix(maxUnix-66+int64(t.Intn(64)), int64(t.Intn(1_000_000_000))).UTC() // the last minute of the NTP era
+	}
 	return time.Unix(maxUnix-4000+int64(t.Intn(300)), int64(t.Intn(1_000_000_000))).UTC()
 }
 
